@@ -27,7 +27,7 @@ func c14Gen(seed uint64, i int, ntexts int) *c14Case {
 	re := rg.Regex(2 + i%2)
 	p := &gen.Program{Commands: []gen.Command{{Amount: gen.Amount{Kind: "all"}, Body: []gen.Node{re}}}}
 	src := gen.RenderProgram(p)
-	alpha := []byte("abc\n 1dA-")
+	alpha := []byte("abc\n 1dA-.*+?|()[]{}^$")
 	sm := gen.NewSampler(rng, p, alpha)
 	texts := sm.Inputs(p.Commands[0].Body, ntexts, maxLenFor(p, 14))
 	return &c14Case{rg, re, p, src, texts}
